@@ -72,6 +72,7 @@ PeerClients == JReports /\ (IF "peer_clients" \in DOMAIN cfg THEN cfg.peer_clien
 
 Announce ==
     /\ IsEvent("announce")
+    /\ ("gated" \in DOMAIN E /\ E.gated) => Allows(E.t[2])
     /\ LET t      == <<E.t[1], E.t[2]>>
            status == Status(E.event, E.left)
            entry  == [seeder |-> status = "seeding", deadline |-> E.deadline, pid |-> E.pid]
@@ -129,12 +130,20 @@ Clean ==
 
 (* Access list reload: a good file replaces the list, anything else leaves *)
 (* the previous list in force and reports an error (C11).                  *)
+(* update_access_list: with mode off the file is not read and success is reported *)
 Reload ==
     /\ IsEvent("reload")
-    /\ IF E.file.kind = "good"
+    /\ IF cfg.mode = "off" THEN E.ok /\ list' = list
+       ELSE IF E.file.kind = "good"
        THEN E.ok /\ list' = SeqRange(E.file.hashes)
        ELSE ~E.ok /\ list' = list
     /\ UNCHANGED <<store, tally, cfg>>
+
+(* an announce the gate refused: only for forbidden hashes, and nothing changes *)
+AnnounceRejected ==
+    /\ IsEvent("announce_rejected")
+    /\ ~Allows(E.t[2])
+    /\ UNCHANGED <<store, tally, cfg, list>>
 
 Allowed ==
     /\ IsEvent("allowed")
@@ -147,7 +156,7 @@ DumpOK ==
     ("dump" \in DOMAIN E) => /\ DumpWellFormed(E.dump)
                               /\ DumpAbs(E.dump) = store'
 
-Next == (Reset \/ Announce \/ Scrape \/ Clean \/ Reload \/ Allowed) /\ DumpOK
+Next == (Reset \/ Announce \/ Scrape \/ Clean \/ Reload \/ Allowed \/ AnnounceRejected) /\ DumpOK
 
 Spec == Init /\ [][Next]_vars
 
